@@ -86,6 +86,15 @@ def evolve_for_history(doc):
                        ("TextDocumentIdentifier", {"name": "verifTag", "type": {"kind": "base", "name": "uinteger"}, "optional": True})):
         if base in names:
             names[base]["properties"].append(prop)
+    # enumerations: the first closed one that is referenced becomes open, the first open one becomes closed
+    flipped = {"open": False, "close": False}
+    for e in d.get("enumerations", []):
+        if not e.get("supportsCustomValues") and not flipped["open"] and e["type"]["name"] == "string":
+            e["supportsCustomValues"] = True
+            flipped["open"] = True
+        elif e.get("supportsCustomValues") and not flipped["close"]:
+            e.pop("supportsCustomValues")
+            flipped["close"] = True
     # generic part (also for the small slices): every third structure gains an optional property and the
     # first structure with properties gets a new mixin
     for i, st in enumerate(list(d["structures"])):
